@@ -4,6 +4,7 @@ import (
 	"fmt"
 	"go/constant"
 	"go/types"
+	"sort"
 	"strconv"
 	"strings"
 
@@ -180,6 +181,49 @@ func (g *FnGen) doCall(ci ssa.CallInstruction, v ssa.Value) {
 		}
 	}
 
+	// an object allocated here whose fields the callee may write has become reachable by the callee
+	// (it was stored into something the callee can see): its invariant must hold now and the
+	// callee maintains it
+	var reachPublished []dirtyObj
+	{
+		r := g.root()
+		mods := g.E.callMods(ci, true)
+		for _, tn := range sortedTypeNames(r.ownAllocs, r.dirty) {
+			touched := false
+			prefix := "F:" + tn + "."
+			for k := range mods {
+				if strings.HasPrefix(k, prefix) || k == "*" {
+					touched = true
+				}
+			}
+			if !touched {
+				continue
+			}
+			t := lookupNamedType(g.P, tn)
+			if t == nil {
+				continue
+			}
+			for n, oa := range r.ownAllocs[tn] {
+				isDirect := false
+				for _, p := range published {
+					if p.T == oa.term {
+						isDirect = true
+					}
+				}
+				if isDirect {
+					continue
+				}
+				ov := Val{T: oa.term, S: sortRef, Go: types.NewPointer(t)}
+				g.oblige("typeinv", fmt.Sprintf("%s/reachable:%s#%d", site, tn, n+1), and(guard, oa.guard), g.typeInvTerm(ov, g.st), "invariant of "+tn+" holds when a callee that may write such objects is called", ci.Pos())
+				reachPublished = append(reachPublished, dirtyObj{ov, oa.guard})
+			}
+			for n, d := range r.dirty[tn] {
+				g.oblige("typeinv", fmt.Sprintf("%s/reachable-written:%s#%d", site, tn, n+1), and(guard, d.guard, not("(= "+d.v.T+" nil)")), g.typeInvTerm(d.v, g.st), "invariant of "+tn+" is re-established before a callee that may write such objects is called", ci.Pos())
+				reachPublished = append(reachPublished, dirtyObj{d.v, and(d.guard, not("(= "+d.v.T+" nil)"))})
+			}
+		}
+	}
+
 	// at-call assertions from the caller's contract
 	if g.C != nil && g.parent == nil {
 		for _, cs := range g.C.Calls {
@@ -249,10 +293,41 @@ func (g *FnGen) doCall(ci ssa.CallInstruction, v ssa.Value) {
 			g.havocAssign(a, env, sig, ct, ci)
 		}
 	} else {
-		mods := g.E.callMods(ci, true)
-		for _, k := range sortedKeys(mods) {
+		whole, byArg := g.E.callEffects(ci, true)
+		for _, k := range sortedKeys(whole) {
 			g.checkCalleeKey(ci, k)
 			g.havocKey(k)
+		}
+		// struct fields the callee writes on the object one of its arguments points to are
+		// havoced at that object only
+		var ais []int
+		for ai := range byArg {
+			ais = append(ais, ai)
+		}
+		sort.Ints(ais)
+		for _, ai := range ais {
+			if ai >= len(c.Args) {
+				for k := range byArg[ai] {
+					g.havocKey(k)
+				}
+				continue
+			}
+			av := g.val(c.Args[ai])
+			for _, k := range sortedKeys(byArg[ai]) {
+				if whole[k] {
+					continue
+				}
+				g.ensureKey(k)
+				srt, ok := g.D.heapSorts[k]
+				if !ok || av.S != sortRef {
+					g.havocKey(k)
+					continue
+				}
+				g.checkAssign(ci, &Place{Key: k, Base: av.T}, ci.Pos())
+				es := strings.TrimSuffix(strings.TrimPrefix(srt, "(Array Ref "), ")")
+				nv := g.freshConst("hv_arg", es)
+				g.st[k] = g.def("h", srt, store(g.D.get(g.st, k), av.T, nv))
+			}
 		}
 	}
 	// values captured by reference may have been changed by a callee that holds the closure
@@ -275,6 +350,9 @@ func (g *FnGen) doCall(ci ssa.CallInstruction, v ssa.Value) {
 	}
 	for _, a := range published {
 		g.assume(guard, g.typeInvTerm(a, g.st), "typeinv-after-publish")
+	}
+	for _, a := range reachPublished {
+		g.assume(and(guard, a.guard), g.typeInvTerm(a.v, g.st), "typeinv-after-publish")
 	}
 	if ct != nil {
 		eg := guard
@@ -746,6 +824,10 @@ func (g *FnGen) finish() {
 	if g.C == nil || len(g.C.Ensures) == 0 || len(g.rets) == 0 {
 		return
 	}
+	if g.C.AssumeEnsures {
+		g.assumptions["postconditions of "+g.name+" are assumed, not proved (assume_ensures)"] = true
+		return
+	}
 	sig := g.fn.Signature
 	// one obligation per (ensures clause, return site): smaller queries, and a failing return
 	// path is named. Return sites are numbered in source order.
@@ -847,7 +929,7 @@ func (g *FnGen) inlineCall(f *ssa.Function, site string, args []Val) ([]Val, boo
 		edgeCond: map[[2]*ssa.BasicBlock]string{}, loops: map[*ssa.BasicBlock]*loopInfo{},
 		env: r.env, siteNames: map[ssa.Instruction]string{}, callOrd: map[ssa.Instruction]int{},
 		assumptions: r.assumptions, usedExtern: r.usedExtern, defaultPure: r.defaultPure,
-		autoInvs: map[*ssa.BasicBlock][]autoInv{}, sweep: g.sweep, entrySt: r.entrySt,
+		autoInvs: map[*ssa.BasicBlock][]autoInv{}, loopTypeInvObjs: map[*ssa.BasicBlock][]Val{}, sweep: g.sweep, entrySt: r.entrySt,
 		labelPrefix: g.labelPrefix + site + ">" , entryGuard: g.curGuard, depth: g.depth + 1, inlined: r.inlined}
 	r.inlined[fnName(f)] = true
 	ch.analyzeLoops()
@@ -885,10 +967,13 @@ func (g *FnGen) inlineCall(f *ssa.Function, site string, args []Val) ([]Val, boo
 		}
 		rt := f.Signature.Results().At(i).Type()
 		rv := g.mkVal(g.def("inl_ret", g.D.sortOf(rt), t), rt)
-		// keep symbolic places of returned addresses when there is a single return
-		if len(ch.rets) == 1 {
-			rv.Place = ch.rets[0].results[i].Place
+		// keep the symbolic place of a returned address when every return yields either that one
+		// place or the literal nil (a nil pointer is never dereferenced without an obligation)
+		var alts []Val
+		for _, r := range ch.rets {
+			alts = append(alts, r.results[i])
 		}
+		rv.Place, rv.PlaceLost = mergePlaces(alts)
 		rs = append(rs, rv)
 	}
 	keys := map[string]bool{}
@@ -1058,4 +1143,43 @@ func (g *FnGen) checkReturnAsserts() {
 			efail("at-return assertion %q is in scope at no return of %s (contract drift)", clauseLabel(c, i), g.name)
 		}
 	}
+}
+
+// mergePlaces: the place of a merged pointer value. All alternatives that are not the literal nil
+// must designate the same place; otherwise the place is lost and the pointer must not be
+// dereferenced (the function is then reported outside the verifier's subset).
+func mergePlaces(alts []Val) (*Place, bool) {
+	var p *Place
+	lost := false
+	for _, a := range alts {
+		if a.PlaceLost {
+			lost = true
+		}
+		if a.Place == nil {
+			if a.T == "nil" {
+				continue
+			}
+			if p != nil {
+				lost = true
+			}
+			continue
+		}
+		if p == nil {
+			p = a.Place
+			continue
+		}
+		if p.Key != a.Place.Key || p.Base != a.Place.Base || p.Idx != a.Place.Idx || len(p.Path) != len(a.Place.Path) {
+			lost = true
+		}
+	}
+	if lost {
+		return nil, true
+	}
+	// an alternative without a place that is not nil, while another has one
+	for _, a := range alts {
+		if a.Place == nil && a.T != "nil" && p != nil {
+			return nil, true
+		}
+	}
+	return p, false
 }
